@@ -105,7 +105,7 @@ type Changes struct {
 // a pointer to a brand new Changes struct, unless error is set to a value
 // other than nil.
 func ParseChangesFile(path string) (ret *Changes, err error) {
-	path, err = filepath.Abs(path)
+	path, err = internal.AbsPhysical(path)
 	if err != nil {
 		return nil, err
 	}
